@@ -102,6 +102,19 @@ pub fn run(_sub: &str, opts: &Opts, w: &mut dyn Write) {
       let hist: Vec<(u32, u8, bool)> = (0..n).map(|_| { let (a, v) = gen_write(&mut rng); let word = rng.chance(1, 6);
         let a = if word && rng.chance(1, 3) { *rng.pick(&[0xdfffu16, 0xcfff, 0x9fff, 0xbfff, 0xfe9f, 0xfffe, 0xffff, 0x7fff, 0xfdff, 0xff7f]) } else { a };
         if rng.chance(1, 6) { (65536u32, *rng.pick(&[1u8, 7, 71, 72, 73, 74, 75, 76, 80, 100, 150, 255]), false) } else { (a as u32, v, word) } }).collect();
+      // one history in eight is about the timer's reload: DIV reset, TMA, TIMA a few ticks below overflow, TAC, exactly the
+      // clocks up to the overflow (pseudo-address 65537: run_clock_cycles(4 * v)), then a TIMA write that must read back
+      let hist: Vec<(u32, u8, bool)> = if rng.chance(1, 8) {
+        let tac = *rng.pick(&[5u8, 6, 7, 4]);
+        let period: u32 = match tac { 5 => 16, 6 => 64, 7 => 256, _ => 1024 };
+        let k = rng.below(3) as u32;
+        let clocks = period * (k + 1) + 4 * *rng.pick(&[0u32, 0, 0, 1, 2]);
+        let mut h = vec![(0xff04u32, 0u8, false), (0xff06, rng.u8(), false), (0xff05, (0xff - k) as u8, false), (0xff07, tac, false)];
+        let mut left = clocks;
+        while left > 0 { let c = left.min(1020); h.push((65537, (c / 4) as u8, false)); left -= c; }
+        h.push((0xff05, rng.u8(), false));
+        h
+      } else { hist };
       // one history in four talks to the cartridge controller only: every order of bank-low / bank-high / mode / RAM-enable
       // writes, so that the window is read back after each kind of register was the last one written
       let hist: Vec<(u32, u8, bool)> = if rng.chance(1, 4) {
@@ -113,6 +126,7 @@ pub fn run(_sub: &str, opts: &Opts, w: &mut dyn Write) {
       let p = &mut mem as *mut MemoryAreas;
       for (a, v, word) in hist.iter() {
         if *a == 65536 { mem.run_clock_cycles(crate::timing::ClockCycles::new(64 * *v as usize)); continue; }
+        if *a == 65537 { mem.run_clock_cycles(crate::timing::ClockCycles::new(4 * *v as usize)); continue; }
         let a = &(*a as u16);
         if *word { crate::mem::memory_write_word(p, *a, ((*v as u32 * 257 + 1) & 0xffff) as u16); } else { memory_write_byte(p, *a, *v); }
       }
@@ -122,7 +136,7 @@ pub fn run(_sub: &str, opts: &Opts, w: &mut dyn Write) {
       // a word write appears in the line as its two byte writes (the spec of a 16-bit store)
       let mut hs: Vec<String> = Vec::new();
       for (a, v, word) in hist.iter() {
-        if *a == 65536 { hs.push(format!("65536:{}", v)); continue; }
+        if *a >= 65536 { hs.push(format!("{}:{}", a, v)); continue; }
         let a = &(*a as u16);
         if *word { let x = ((*v as u32 * 257 + 1) & 0xffff) as u16; hs.push(format!("{}:{}", a, x & 0xff)); hs.push(format!("{}:{}", a.wrapping_add(1), x >> 8)); }
         else { hs.push(format!("{}:{}", a, v)); }
